@@ -5,5 +5,5 @@ from props._solver import standard_run
 
 
 def run(ctx):
-    corr, viol = standard_run(ctx, "C03", {"opt", "term", "crash"}, 500, 8000, ["optimize_unwatched_objective"], with_opt=True)
+    corr, viol = standard_run(ctx, "C03", {"opt", "term", "crash"}, 500, 30000, ["optimize_unwatched_objective"], with_opt=True)
     return {"corr_diffs": corr, "violations": viol, "component": "optimize (NucsModel/Engine/Search.lean) vs BacktrackSolver.minimize/maximize"}
